@@ -93,6 +93,10 @@ def gen_unit(rng, nids, depth, maxlen):
             undefd[m] = rng.randrange(300000, 400000)     # now an ordinary identifier
     if undefd:
         L.append('enum { %s };' % ', '.join('%s = %d' % kv for kv in sorted(undefd.items())))
+    # identical (benign) redefinitions, followed by other short tokens before the next use
+    for m in rng.sample(sorted(macros), min(len(macros), 40)):
+        L.append('#define %s %d' % (m, macros[m]))
+        L.append('extern int zq9rd_%d, zq9r%d;' % (rng.randrange(10 ** 6), rng.randrange(100)))
     nchk = [0]
 
     def chk(expr, v, indent=''):
@@ -198,6 +202,15 @@ def gen_unit(rng, nids, depth, maxlen):
             else:
                 chk(n, v, ind)
     L.append('}')
+    # a function returning a pointer to function: the body sees the parameters of the function itself, not those of the returned type
+    for j in range(3):
+        n = rng.choice(ids)
+        n2 = rng.choice([x for x in ids[:50] if x != n] or ids)
+        L.append('int (*pfr%d(char %s, char (*%s_q)[%d]))(long %s_x, short %s, double %s) {' % (j, n, n2[:8], 3 + j, n2[:8], n, n2))
+        chk('sizeof(%s) * 100 + sizeof(*%s_q)' % (n, n2[:8]), 100 + 3 + j, '\t')
+        chk(n2, val[n2], '\t')
+        L.append('\treturn 0;\n}')
+        chk(n, val[n])
     # prototype scope: parameter names shadow only inside the declarator
     n = rng.choice(ids)
     L.append('int proto(int %s, char (*p)[sizeof(%s)]);' % (n, n))
@@ -211,6 +224,15 @@ def gen_unit(rng, nids, depth, maxlen):
         strs.append(('str%d' % k, 'char', s))
     w1 = base + 'WXYZ' * 3
     w2 = base + 'wxyz' * 3
+    # narrow literals whose bytes equal those of a wide literal that follows (sharing is allowed, weaker alignment is not)
+    for k, (wd, s) in enumerate([(4, w1), (2, w2)]):
+        twin = ''.join(c + '\\0' * (wd - 1) for c in s) + '\\0' * (wd - 1)
+        L.append('const char *twin%d = "%s";' % (k, twin))
+        strs.append(('twin%d' % k, 'char', twin))
+        # ... and one that equals the wide literal up to, but not including, its terminator
+        short = ''.join(c + '\\0' * (wd - 1) for c in s)
+        L.append('const char *twinb%d = "%s";' % (k, short))
+        strs.append(('twinb%d' % k, 'char', short))
     for k, (pfx, s) in enumerate([('L', w1), ('L', w2), ('u', w1), ('u', w2), ('U', w1), ('U', w2), ('u8', w1)]):
         ty = {'L': 'int', 'u': 'unsigned short', 'U': 'unsigned', 'u8': 'unsigned char'}[pfx]
         L.append('const %s *wstr%d = %s"%s";' % (ty, k, pfx, s))
@@ -270,6 +292,8 @@ def _unit(args):
         raw = decode_c_string(s)
         w = {'char': 1, 'u8': 1, 'u': 2, 'U': 4, 'L': 4}[pfx]
         want = b''.join(bytes([c]) + b'\0' * (w - 1) for c in raw) + b'\0' * w
+        if (sd.align or 1) % w or add % w:
+            res['viol'].append(('string-align', '%s (%s"%s") points to %s+%d, an object aligned to %d for elements of %d bytes' % (name, pfx, s[:20], sym, add, sd.align or 1, w)))
         if simg[add:add + len(want)] != want or len(simg) - add != len(want):
             res['viol'].append(('string', '%s (%s"%s") holds %r' % (name, '' if pfx == 'char' else pfx, s, simg[add:add + 40])))
     res['strings'] = len(strs)
